@@ -415,6 +415,93 @@ def misc_bugclasses(prog, cfg_of_):
                                 f"'{stmt_text(st.value, 90)}' stores the one-element collection only when the key is new and "
                                 f"discards it otherwise: every further value of an existing key is lost (a step with "
                                 f"several same-named parents keeps the first one only)"))
+    # LOGNORAISE: an error is logged and execution simply goes on.  Everywhere in this package `logger.error(..)`
+    # announces a failure that is then raised / returned; a branch that only logs lets the caller continue with the
+    # missing object (a None asset, an unresolved step) - the malformed input is half-processed instead of rejected
+    LOG_OK = {('_process_step_expression', 'Requested variable from non-asset target node'):
+              'loop over the targets: a target that is not an asset is skipped, the result for the others is returned'}
+    raw_funcs = []
+    for m in prog.handwritten_modules():
+        raw = ast.parse(m.source)
+        for fn in ast.walk(raw):
+            if isinstance(fn, (ast.FunctionDef, ast.AsyncFunctionDef)):
+                host = next((g for g in prog.all_funcs() if g.module is m and g.name == fn.name), None)
+                if host is None:
+                    # a helper the inliner dissolved: report against any function of the module
+                    host = next((g for g in prog.all_funcs() if g.module is m), None)
+                if host is not None:
+                    raw_funcs.append((host, fn))
+    for host_, rawfn in raw_funcs:
+        class _F:       # the statements of the function AS WRITTEN (helpers not yet un-extracted: `return False` is still there)
+            node = rawfn
+            name = rawfn.name
+        f = _F
+        pm_ = {}
+        for x in ast.walk(f.node):
+            for fld in ('body', 'orelse', 'finalbody'):
+                blk = getattr(x, fld, None)
+                if isinstance(blk, list):
+                    for i_, st_ in enumerate(blk):
+                        if isinstance(st_, ast.stmt):
+                            pm_[id(st_)] = (x, blk, i_)
+            for h_ in getattr(x, 'handlers', []) or []:
+                for i_, st_ in enumerate(h_.body):
+                    pm_[id(st_)] = (h_, h_.body, i_)
+            for c_ in getattr(x, 'cases', []) or []:
+                for i_, st_ in enumerate(c_.body):
+                    pm_[id(st_)] = (c_, c_.body, i_)
+
+        def is_log(st_):
+            return isinstance(st_, ast.Expr) and isinstance(st_.value, ast.Call) and isinstance(st_.value.func, ast.Attribute) \
+                and isinstance(st_.value.func.value, ast.Name) and st_.value.func.value.id in ('logger', 'logging')
+
+        def ends(st_):
+            """True when control cannot simply go on after statement st_'s position (scanning forwards / outwards)"""
+            cur = st_
+            for _ in range(12):
+                if id(cur) not in pm_:
+                    return False
+                parent, blk, i_ = pm_[id(cur)]
+                for nxt in blk[i_ + 1:]:
+                    if isinstance(nxt, (ast.Raise, ast.Return, ast.Continue, ast.Break)):
+                        return True
+                    if isinstance(nxt, ast.Expr) and isinstance(nxt.value, ast.Call) and 'exit' in stmt_text(nxt.value.func):
+                        return True
+                    if is_log(nxt) or isinstance(nxt, ast.Pass) or (isinstance(nxt, ast.Assign) and isinstance(
+                            nxt.value, (ast.Constant, ast.JoinedStr, ast.BinOp))):
+                        continue
+                    return False
+                if isinstance(parent, (ast.For, ast.While, ast.FunctionDef, ast.AsyncFunctionDef)):
+                    return False
+                if isinstance(parent, (ast.ExceptHandler, ast.match_case)):
+                    # continue after the try / match statement
+                    owner = next((y for y in ast.walk(f.node) if parent in (getattr(y, 'handlers', []) or [])
+                                  or parent in (getattr(y, 'cases', []) or [])), None)
+                    if owner is None:
+                        return False
+                    cur = owner
+                    continue
+                cur = parent
+            return False
+        own_ = []
+        stack_ = list(f.node.body)
+        while stack_:
+            y = stack_.pop()
+            if isinstance(y, (ast.FunctionDef, ast.AsyncFunctionDef, ast.ClassDef, ast.Lambda)):
+                continue
+            own_.append(y)
+            stack_.extend(ast.iter_child_nodes(y))
+        for st_ in own_:
+            if is_log(st_) and st_.value.func.attr in ('error', 'critical') and isinstance(st_, ast.stmt):
+                if ends(st_):
+                    continue
+                txt = stmt_text(st_.value.args[0], 200) if st_.value.args else ''
+                if any(f.name == fn_ and frag in txt for (fn_, frag) in LOG_OK):
+                    continue
+                out.append((host_, st_, 'LOGNORAISE',
+                            f"'{stmt_text(st_, 70)}' reports a failure, but nothing is raised or returned after it: execution "
+                            f"goes on with the object that could not be found / built (every other error branch of the "
+                            f"package raises), so broken input is half-processed instead of rejected"))
     # IDINDEX: a LIST built by append and then subscripted with an object's id: position and id agree only while ids
     # are 0..n-1 in insertion order (not after remove_node / explicit ids / pruning)
     for f in prog.all_funcs():
